@@ -202,3 +202,92 @@ func VerifC02_WriteHeaderStep() {
 }
 
 var _ = common.Hash{}
+
+// VerifC02_PrunedAncestorStep: the fork choice of insertChain2 for a block whose
+// parent is stored without state (ErrPrunedAncestor, pruning configuration).
+// The REAL insertChain2 runs with the real BlockValidator: either the block is
+// only stashed (WriteBlockWithoutState) - allowed iff TD(head) > TD(parent) +
+// difficulty - or the state-less side chain is re-imported and the block goes
+// through WriteBlockWithState.  Afterwards the head must be at least as heavy
+// as the block that was given.
+func VerifC02_PrunedAncestorStep() {
+	s := &c02Scene{f: c02NewFix()}
+	f := s.f
+	f.arch = false
+	g := s.add(nil, "G")
+	f.canon(g.b)
+	a1 := s.add(&g, "A1")
+	f.canon(a1.b)
+	s.head = a1
+	if vs.Choice("headlen", 2) == 1 {
+		a2 := s.add(&a1, "A2")
+		f.canon(a2.b)
+		s.head = a2
+	}
+	// side chain of 1..2 blocks stored WITHOUT state (as WriteBlockWithoutState leaves them)
+	var side []c02Stored
+	par := g
+	for i, n := 0, 1+vs.Choice("sidelen", vs.Param("S")); i < n; i++ {
+		d := c02Diff("dS")
+		st := c02Stored{b: f.block(par.b, d), td: new(big.Int).Add(par.td, d)}
+		WriteTd(f.db, st.b.Hash(), st.b.NumberU64(), st.td)
+		WriteBlock(f.db, st.b)
+		s.all = append(s.all, st)
+		side = append(side, st)
+		par = st
+	}
+	f.head(s.head.b)
+	for _, x := range s.all {
+		vs.Assume(x.td.Cmp(s.head.td) <= 0)
+	}
+	f.open()
+	bc := f.bc
+	vs.Assert(bc.CurrentBlock().Hash() == s.head.b.Hash(), "fixture: opened chain has the constructed head")
+	vs.Assert(!bc.HasState(par.b.Root()) && bc.HasBlock(par.b.Hash(), par.b.NumberU64()), "fixture: the parent is stored without state")
+
+	dB := c02Diff("dB")
+	b := f.block(par.b, dB)
+	localTd := s.head.td
+	externTd := new(big.Int).Add(par.td, dB)
+
+	_, _, _, err := bc.insertChain(types.Blocks{b})
+	vs.Assert(err == nil, "import of a block on a state-less side chain succeeds")
+
+	tdB := GetTd(f.db, b.Hash(), b.NumberU64())
+	vs.Assert(tdB != nil && tdB.Cmp(externTd) == 0, "stored TD = TD(parent) + difficulty")
+	vs.Assert(bc.GetBlock(b.Hash(), b.NumberU64()) != nil, "the block is stored")
+	nh := bc.CurrentBlock()
+	isOld := nh.Hash() == s.head.b.Hash()
+	isNew := nh.Hash() == b.Hash()
+	tdH := bc.GetTd(nh.Hash(), nh.NumberU64())
+	vs.Assert(tdH != nil, "head has a TD")
+	vs.Assert(tdH.Cmp(localTd) >= 0, "head TD never decreases")
+	vs.Assert(tdH.Cmp(externTd) >= 0, "head is at least as heavy as the imported block")
+	vs.Assert(bc.HasState(nh.Root()), "the head has its state")
+	if externTd.Cmp(localTd) > 0 {
+		vs.Reach("heavier")
+		vs.Assert(isNew, "a strictly heavier block becomes head")
+	} else if externTd.Cmp(localTd) < 0 {
+		vs.Reach("lighter")
+		vs.Assert(isOld, "a strictly lighter block does not become head")
+		vs.Assert(!bc.HasState(b.Root()), "a lighter block on a state-less branch is only stashed (no state written)")
+	} else {
+		vs.Reach("tie")
+	}
+	if bc.HasState(b.Root()) {
+		vs.Reach("reimported")
+		for _, x := range side {
+			vs.Assert(bc.HasBlockAndState(x.b.Hash(), x.b.NumberU64()), "re-import made the state of the whole side chain available")
+		}
+	} else {
+		vs.Reach("stashed")
+	}
+	for _, x := range s.all {
+		xtd := GetTd(f.db, x.b.Hash(), x.b.NumberU64())
+		vs.Assert(xtd != nil && xtd.Cmp(x.td) == 0, "TD of other blocks untouched")
+		vs.Assert(xtd.Cmp(tdH) <= 0, "no stored block is heavier than the head")
+	}
+	vs.Assert(GetHeadBlockHash(f.db) == nh.Hash(), "LastBlock pointer names the in-memory head")
+	vs.Assert(GetCanonicalHash(f.db, nh.NumberU64()) == nh.Hash(), "head is canonical at its height")
+	vs.Observe("tdB", tdB)
+}
